@@ -184,7 +184,62 @@ def main(tier):
             ff.update({k: b64(v) for k, v in files.items()})
             cases.append({"id": cid, "files": ff, "root": "main.jst"})
             meta[cid] = (m, f, via, text, files, bs, vs)
+    # two faults at once: the document is rejected and the diagnostic lies in a site of one of them
+    pairs = {}
+    for n, m in enumerate(docs):
+        tx = m["tx"][0]
+        fa, fb = tx["fault"], tx.get("fault2")
+        if not fb or fa == fb or "undefined" in (fa["f"], fb["f"]):
+            continue                      # a removal shifts the indices the second fault refers to
+        ra = inject(m["doc"], fa)
+        if ra is None:
+            continue
+        try:
+            rb = inject(ra[0], fb)
+        except (ValueError, KeyError, IndexError):
+            continue                      # the first fault destroyed what the second one refers to
+        if rb is None:
+            continue
+        sites = sorted(set(list(tx["fault_sites"]) + list(tx["fault2_sites"]) + ra[1] + rb[1]))
+        try:
+            text, bs, spans = apidoc.render(rb[0])
+        except Exception:
+            continue
+        cid = "ff%d" % n
+        cases.append(rel.case(cid, text))
+        pairs[cid] = (m, fa, fb, text, bs, sites)
     obs = harness("run", cases)
+    for cid, (m, fa, fb, text, bs, sites) in pairs.items():
+        o = obs[cid]
+        chk.evaluations += 1
+        chk.traces += 1
+        chk.nontrivial.add(json.dumps([fa, fb, m["doc"]], sort_keys=True))
+        la = fa["f"] + (":" + fa["x"] if fa["x"] else "")
+        lb = fb["f"] + (":" + fb["x"] if fb["x"] else "")
+        bad, what = None, ""
+        if o["outcome"] != "error":
+            bad = "faults %s and %s injected, but the document was: %s" % (la, lb, rel.describe(o))
+            what = "not rejected"
+        elif not located(o["err"], bs, sites, 0):
+            e = o["err"]
+            bad = "faults %s and %s rejected (%r) but the diagnostic at %s:%d (line %d) is outside the offending declarations %s" % (
+                la, lb, e["msg"], e["file"], e["index"], e["line"], [bs[s - 1] for s in sites if 1 <= s <= len(bs)])
+            what = "located elsewhere"
+        if bad:
+            sig = {"fault": la + "+" + lb, "via": "pair", "what": what, "block": "", "detail": "", "outcome": o["outcome"],
+                   "msg": (o.get("err") or {}).get("msg", ""), "frames": ",".join(o.get("frames") or [])}
+            # if the behaviour is that of a listed finding about ONE of the two faults, it is that finding
+            import common
+            for ff, lab in ((fa, la), (fb, lb)):
+                bk = m["doc"][ff["i"] - 1]["t"] if ff["i"] else ""
+                one = dict(sig, fault=lab, block=bk)
+                if any(k.get("status", "open") == "open" and common.signature_matches(k, one) for k in chk.known):
+                    sig = one
+                    break
+            chk.violation("%s | document:\n%s" % (bad, text[:1300]),
+                          {"kind": "fault", "fault": [fa, fb], "via": "pair", "doc": m["doc"], "main": text, "files": {},
+                           "sites": sites, "block_spans": bs, "observed": o, "signature": sig}, sig)
+    chk.extra["fault_pairs"] = len(pairs)
     kinds = {}
     for cid, (m, f, via, text, files, bs, sites) in meta.items():
         o = obs[cid]
@@ -217,7 +272,7 @@ def main(tier):
         x = next(iter(meta.values()))
         chk.sample({"fault": x[1], "via": x[2], "document": x[3][:600]})
     chk.rule = ("(valid document, one applicable fault chosen by JSightApi!Tx from FaultChoices(doc), injection route "
-                "direct/paste/include); distinct = distinct triples")
+                "direct/paste/include); pairs of independently chosen faults (rejected, located in a site of one of them); distinct = distinct triples")
     chk.assumptions += ["fault injection is performed by the renderer from TLC's fault descriptor"]
     return chk.finish()
 
